@@ -176,6 +176,12 @@ impl RtpsStatefulWriter {
         source_guid_prefix: GuidPrefix,
         message_writer: &(impl WriteMessage + ?Sized),
     ) {
+        // a NACK_FRAG addressed to another writer of this participant is not for this writer: answering it
+        // would resend this writer's fragments or, worse, announce a GAP for a sequence number it has not
+        // written yet
+        if self.guid.entity_id() != nackfrag_submessage._writer_id() {
+            return;
+        }
         let reader_guid = Guid::new(source_guid_prefix, nackfrag_submessage.reader_id());
 
         if let Some(reader_proxy) = self
